@@ -42,7 +42,7 @@ WIDTH = {1: 1, 2: 1, 3: 2, 4: 4, 5: 8}
 
 def floors(tier):
     return {"key-by-name": 1200, "key-by-id": 1200, "list": 300, "parse-set": 300, "parse-get": 300,
-            "lookup": 1200, "limit": 6, "unknown-key": 100, "widths>=2": 200, "unknown-sibling": 3000}
+            "lookup": 1200, "limit": 6, "unknown-key": 100, "widths>=2": 200, "unknown-sibling": 3000, "after-failed-call": 100}
 
 
 def plan(tier, seed):
@@ -187,6 +187,18 @@ def check(case) -> core.Out:
         out.nontrivial = (len(items) >= 2 and len(widths) >= 2) or (
             len(items) == 1 and bool(items[0][1] if len(items[0]) > 1 else items[0][0]))
         out.sample = {"helper": helper, "args": [a, b, [list(i) for i in items[:3]]], "payload": want[:32]}
+        if case.get("after_failure"):
+            # history: the same helper is first called with a list that fails part
+            # way through (valid keys, then one that cannot be resolved / encoded)
+            out.classes.append("after-failed-call")
+            good = [it for it in items[:3]] or [[sorted(db())[0]] + ([0] if helper == "set" else [])]
+            bad = [["CFG_NO_SUCH_KEY", 0], [0x1FFFFFFFFF, 0], [None, 0]][case["after_failure"] % 3]
+            for blist in (good + [bad], [bad]):
+                try:
+                    fnb = getattr(pyubx2.UBXMessage, f"config_{helper}")
+                    fnb(a, b, [tuple(i) for i in blist] if helper == "set" else [i[0] for i in blist])
+                except Exception:  # noqa
+                    pass
         try:
             fn = getattr(pyubx2.UBXMessage, f"config_{helper}")
             arg = [tuple(i) for i in items] if helper == "set" else [i[0] for i in items]
@@ -384,10 +396,11 @@ def run_shard(spec, ctx, acc):
     def mkcases(t4):
         its, byname, a, b = t4
         keyed = [[(nm if (byname and nm) else kid), v] for kid, nm, v in its]
+        af = (a % 4) if b % 3 == 0 else 0  # a third of the cases follow a failed call
         return [
-            {"kind": "build", "helper": "set", "a": a, "b": b % 4, "items": keyed},
-            {"kind": "build", "helper": "del", "a": a, "b": b % 4, "items": [[x[0]] for x in keyed]},
-            {"kind": "build", "helper": "poll", "a": a % 8, "b": b, "items": [[x[0]] for x in keyed]},
+            {"kind": "build", "helper": "set", "a": a, "b": b % 4, "items": keyed, "after_failure": af},
+            {"kind": "build", "helper": "del", "a": a, "b": b % 4, "items": [[x[0]] for x in keyed], "after_failure": af},
+            {"kind": "build", "helper": "poll", "a": a % 8, "b": b, "items": [[x[0]] for x in keyed], "after_failure": af},
             {"kind": "parse", "mode": 1, "hdr": bytes([0 if b % 4 == 0 else 1, a, b % 4, 0]), "items": keyed},
             {"kind": "parse", "mode": 0, "hdr": bytes([1, a % 8]) + b.to_bytes(2, "little"), "items": keyed},
         ]
